@@ -33,7 +33,7 @@ PROPS = {
 
 PROPS["C11"] = dict(
     family="fmt",
-    theorems=T("C11", "translated_pad_size_is_model", "format_outcome_eq_spec", "format_eq_spec", "format_string_eq_spec", "field_eq_spec", "int_eq_spec", "never_truncated_int", "never_truncated_text",
+    theorems=T("C11", "translated_pad_size_is_model", "translated_numeric_layout_is_model", "format_outcome_eq_spec", "format_eq_spec", "format_string_eq_spec", "field_eq_spec", "int_eq_spec", "never_truncated_int", "never_truncated_text",
                "length_eq_max_int", "length_eq_max_text", "zero_pad_position", "zero_flag", "sequential_ignores_refs", "escape_braces",
                "literal_verbatim", "char_class_wide"),
     partial="floating-point arguments: the libc rendering is a parameter (C13) of any length, assumed non-empty (Arg.LibcRenders: snprintf reports a positive size, "
